@@ -5,7 +5,6 @@ from vlib.rules import *
 FILE = "compiler/src/ast/assignment.rs"
 
 SPEC = r"""
-pub fn node_kids(n: &Node) -> (r: Children) ensures r.items@ == node_children(n) { children(n) }
 pub struct Ident { pub name: VStr, pub ty: Option<TypeLayout>, pub read_only: bool }
 #[verifier::external_body] pub fn parse_ident(n: Node) -> (r: Result<Ident, VErr>) { unimplemented!() }
 #[verifier::external_body] pub fn link_force_no_inherit(i: &mut Ident, n: &Node, t: TypeLayout) -> (r: Result<(), VErr>) { unimplemented!() }
